@@ -954,7 +954,10 @@ func c06Lines(c *Ctx, R string) {
 			if !ok {
 				continue
 			}
-			lobj := info.Uses[lid]
+			lobj := objOf(info, lid)
+			if lobj == nil {
+				continue
+			}
 			nParts++
 			folded := false
 			for _, later := range blk.Body[i+1:] {
